@@ -57,3 +57,7 @@ package multi
 //@   requires 0 <= p.current && (len(p.transportIDs) == 0 || p.current < len(p.transportIDs))
 //@   ensures 0 <= p.current && (len(p.transportIDs) == 0 || p.current < len(p.transportIDs))
 //@   ensures imp(len(p.transportIDs) > 0, exists(i, int, 0 <= i && i < len(p.transportIDs) && result == p.transportIDs[i]))
+
+// ---------------------------------------------------------------- C09: lock discipline
+//@ guarded[C09] Transport.mu: currentTransportID
+//@ guarded[C09] Transport.lastReadTransportIDmu: lastReadTransportID
